@@ -493,7 +493,10 @@ def main():
                     continue
             fprop = str(doc.get("facet", "")).split("/")[0]
             if re.fullmatch(r"C\d\d", fprop) and fprop != pid and not replay:
-                log("note: the shared harness hit a violation of %s (%s); it is reported by ./check %s, not by this check" % (fprop, msg[:200].replace("\n", " "), fprop))
+                h2 = hashlib.sha1(json.dumps(doc.get("case", ""), sort_keys=True).encode()).hexdigest()[:10]
+                d2 = os.path.join(WORK, "other-%s-%s-%s.json" % (fprop, re.sub(r"[^A-Za-z0-9_-]", "_", str(doc.get("facet"))), h2))
+                json.dump(doc, open(d2, "w"), indent=1)
+                log("note: the shared harness hit a violation of %s (%s); it is reported by ./check %s, not by this check [%s]" % (fprop, msg[:200].replace("\n", " "), fprop, d2))
                 other_prop_hits.append(fprop)
                 continue
             h = hashlib.sha1(json.dumps(doc.get("case", doc.get("output_tail", "")), sort_keys=True).encode()).hexdigest()[:10]
